@@ -73,7 +73,8 @@ type poller struct {
 	// on the same IO object.
 	lck sync.Mutex
 
-	// pending is the number of pending posts the poller needs to execute
+	// pending is the number of operations in flight: registered interests plus posted handlers not yet run. Post
+	// updates it from any goroutine, everything else from the poller's goroutine: always access it atomically.
 	pending int64
 
 	// closed is true if the close() has been called on fd
@@ -108,13 +109,13 @@ func NewPoller() (Poller, error) {
 		return nil, err
 	}
 	// ignore the waker
-	p.pending--
+	atomic.AddInt64(&p.pending, -1)
 
 	return p, err
 }
 
 func (p *poller) Pending() int64 {
-	return p.pending
+	return atomic.LoadInt64(&p.pending)
 }
 
 func (p *poller) Close() error {
@@ -133,7 +134,7 @@ func (p *poller) Closed() bool {
 func (p *poller) Post(handler func()) error {
 	p.lck.Lock()
 	p.posts = append(p.posts, handler)
-	p.pending++
+	atomic.AddInt64(&p.pending, 1)
 	p.lck.Unlock()
 
 	// Concurrent writes are thread safe for eventfds.
@@ -229,7 +230,7 @@ func (p *poller) dispatch() {
 	for i, handler := range p.running {
 		handler()
 		p.running[i] = nil
-		p.pending--
+		atomic.AddInt64(&p.pending, -1)
 	}
 }
 
@@ -244,7 +245,7 @@ func (p *poller) SetWrite(slot *Slot) error {
 func (p *poller) setRW(fd int, slot *Slot, flag PollerEvent) error {
 	events := &slot.Events
 	if *events&flag != flag {
-		p.pending++
+		atomic.AddInt64(&p.pending, 1)
 
 		oldEvents := *events
 		*events |= flag
@@ -258,7 +259,7 @@ func (p *poller) setRW(fd int, slot *Slot, flag PollerEvent) error {
 		if err != nil {
 			// The kernel refused the registration: nothing is in flight for this direction.
 			*events = oldEvents
-			p.pending--
+			atomic.AddInt64(&p.pending, -1)
 		}
 		return err
 	}
@@ -312,7 +313,7 @@ func (p *poller) Del(slot *Slot) error {
 func (p *poller) DelRead(slot *Slot) error {
 	events := &slot.Events
 	if *events&PollerReadEvent == PollerReadEvent {
-		p.pending--
+		atomic.AddInt64(&p.pending, -1)
 		*events ^= PollerReadEvent
 		if *events != 0 {
 			return p.modify(slot.Fd, createEvent(*events, slot))
@@ -325,7 +326,7 @@ func (p *poller) DelRead(slot *Slot) error {
 func (p *poller) DelWrite(slot *Slot) error {
 	events := &slot.Events
 	if *events&PollerWriteEvent == PollerWriteEvent {
-		p.pending--
+		atomic.AddInt64(&p.pending, -1)
 		*events ^= PollerWriteEvent
 		if *events != 0 {
 			return p.modify(slot.Fd, createEvent(*events, slot))
